@@ -65,18 +65,45 @@ def main():
     ap.add_argument('--tier', default='quick')
     ap.add_argument('--seed', type=int, default=0)
     ap.add_argument('--demo', action='store_true')
+    ap.add_argument('--readme', action='store_true')
     args = ap.parse_args()
     dirs = sorted(d for d in glob.glob(os.path.join(HERE, 'seeded', '*'))
                   if os.path.isdir(d) and (not args.ids or
                                            os.path.basename(d) in args.ids))
     missed = 0
+    results = {}
     for d in dirs:
         r = one(d, args)
         missed += r[2] != 'CAUGHT'
+        results[r[0]] = {'verdict': r[2], 'detail': r[3]}
         print('%-28s %s %-8s %5.1fs %s' % (r[0], r[1], r[2], r[4], r[3]))
         sys.stdout.flush()
     print('%d seeded changes, %d not caught' % (len(dirs), missed))
+    if args.readme:
+        write_readme(results, args)
     return 1 if missed else 0
+
+
+def write_readme(results, args):
+    rows = []
+    for d in sorted(glob.glob(os.path.join(HERE, 'seeded', 'C*'))):
+        sid = os.path.basename(d)
+        m = json.load(open(os.path.join(d, 'meta.json')))
+        r = results.get(sid, {'verdict': 'not run', 'detail': ''})
+        keys = re.sub(r'demo:\S+ ', '', r['detail']).replace('|', '/')
+        rows.append('| %s | %s | %s | %s | %s |' % (
+            sid, m['property'], m.get('round', 1),
+            m.get('needs_to_manifest', ''), (r['verdict'] + ': ' + keys)[:300]))
+    caught = sum(1 for r in results.values() if r['verdict'] == 'CAUGHT')
+    text = open(os.path.join(HERE, 'seeded', 'README.head.md')).read()
+    text += ('\nResult of the last full run (`tools/run_seeded.py --readme`, '
+             '%s tier, seed %d): %d of %d changes caught.\n\n'
+             '| change | property | round | needs, in order to manifest | '
+             'verdict and check keys that fire |\n|---|---|---|---|---|\n'
+             % (args.tier, args.seed, caught, len(results)))
+    text += '\n'.join(rows) + '\n'
+    with open(os.path.join(HERE, 'seeded', 'README.md'), 'w') as fh:
+        fh.write(text)
 
 
 if __name__ == '__main__':
